@@ -8,6 +8,7 @@ LEVEL = 'exploration'
 RULE = ("stratified cases = 12 decorator classes x purge x 4 backend families (18 backends) x information-preserving keymaps (raw/string/pickle/"
         "md5/sha1 hash, flat or not, typed or not, sentinel) + the decorator defaults x generated signature (defaults, *args, **kw) x pool of "
         "argument tuples (ints, floats, strs from a hostile alphabet, bytes, None, bools, tuples, equal-but-differently-typed twins) x history of "
+        "[plus: purely variadic functions with one-argument look-alike calls 1 / '1'; TWO different functions of the same arguments, each with its own archive of the same kind, stepped alternately without the harness reading caches or archives in between] "
         "calls in several spellings interleaved with dump/load (keyed or not)/clear/toggles/direct archive writes/re-decoration/re-open. "
         "Oracle: result == undecorated reference function on the same arguments, type-exact; no exception the function does not raise. "
         "non-trivial = a call answered from the archive (LOAD) or from memory after another key was evicted/purged; "
@@ -38,7 +39,24 @@ def _lookalike_scenario(case):
     return case
 
 
+def _pair(case):
+    # constructed opening: both compute entry 0, dump, clear, somebody lists the stored keys (no values read), both ask for entry 0 again
+    pre = [['call', 0, 0, 0], ['dump'], ['clear'], ['akeys'], ['call', 0, 0, 0]] if H.backend_archived(case['backend']) else []
+    return dict(case, pair=True, ops=pre + list(case['ops']))
+
+
 def strata(tier):
+    # two different functions of the same arguments, each memoized in its OWN archive of the same kind (another directory / file / table): neither may be
+    # answered with the other's results, whatever process-wide state the back end keeps
+    pairs = G.strata_grid(modules=('std', 'safe'), algos=('lru', 'rr', 'inf', 'no'), purges=(False, True), families=('memarch', 'persist', 'direct'), maxsizes=(2, 1, None),
+                          weights={'call': 12, 'dump': 2, 'clear': 2, 'load': 1, 'akeys': 3, 'loadk': 1, 'dumpk': 1}, max_ops=14, pool=(2, 4))
+    # the source-text back ends read entries back by IMPORTING them (module cache, sys.path, bytecode): their own strata
+    src = G.strata_grid(modules=('std', 'safe'), algos=('lru', 'inf'), purges=(False,), families=('persist',), backends=('cache_dir_src', 'cache_file_src'), maxsizes=(2, None),
+                        weights={'call': 12, 'dump': 2, 'clear': 2, 'load': 1, 'akeys': 3}, max_ops=10, pool=(2, 4), default_keymap_pct=60)
+    return [('two-functions/' + n, s.map(_pair)) for n, s in pairs] + [('two-functions-src/' + n, s.map(_pair)) for n, s in src] + _strata_look(tier)
+
+
+def _strata_look(tier):
     look = G.strata_grid(modules=('std', 'safe'), algos=('lru', 'inf', 'no'), purges=(False,), families=('noarch', 'memarch', 'persist'), maxsizes=(2, None),
                          shapes=[{'varargs': True}, {'varargs': True, 'varkw': True}], weights={'call': 10, 'dump': 2, 'clear': 1, 'load': 1}, max_ops=10, pool=(2, 4))
     return [('lookalikes/' + n, s.map(_lookalike_scenario)) for n, s in look] + _strata_sib(tier)
@@ -98,7 +116,62 @@ def check_trace(case, tr):
     return out, ev, flags
 
 
+def run_pair(case):
+    import os
+    classes = base_classes(case) + ['two_functions']
+    out = []
+    flags_all = {'load': 0, 'hit_after_eviction': 0}
+    evs = []
+    cwd0 = os.getcwd()
+    with H.Scratch() as sc:
+        try:
+            sess = []
+            for tag, salt in (('A', ''), ('B', 'other function')):
+                root = os.path.join(sc.path, tag)
+                os.makedirs(root)
+                fn = H.Fn(case['sig'], case.get('rmode', 'str'), None, typed_top=bool(case.get('keymap') and case['keymap'].get('typed')), salt=salt)
+                try:
+                    sess.append(H.Session(case, root, fn=fn))
+                except Exception as e:
+                    return [Discrepancy('C01/decorate/%s' % H.exc_sig(e), repr(e))], None, classes
+            traces = [H.Trace(case), H.Trace(case)]
+            # the harness does NOT look into caches or archives between steps here (observe=False): reading an archive is itself an operation
+            # that may refresh or disturb process-wide state, and would hide interference between the two functions
+            bad = None
+            for i, op in enumerate(H.expand_ops(case['ops'])):
+                for j in ((0, 1) if i % 2 == 0 else (1, 0)):       # who goes first alternates
+                    s = H.apply_op(sess[j], op, traces[j], observe=False)
+                    if s.exc is not None and not (s.kind in ('arch_on', 'arch_off') and isinstance(s.exc, ValueError)):
+                        bad = Discrepancy('C01/two-functions/%s/raised/%s' % (s.kind, H.exc_sig(s.exc)), 'step %d %r of function %s: %r' % (i, op, 'AB'[j], s.exc))
+                    elif s.kind == 'call' and not same(s.result, s.expected):
+                        bad = Discrepancy('C01/two-functions/%s/wrong-result' % H.effective_algo(case),
+                                          'step %d: function %s called with (*%r, **%r) returned %r, it returns %r (the other function returns %r)' % (
+                                              i, 'AB'[j], s.args, s.kwds, s.result, s.expected, sess[1 - j].fn.ref(*s.args, **s.kwds)))
+                    if bad is not None:
+                        break
+                if bad is not None:
+                    out.append(bad)
+                    break
+            for j in (0, 1):
+                inf = sess[j].f.info()
+                flags_all['load'] += inf.load
+                flags_all['hit_after_eviction'] += inf.hit
+                evs.append([st_.kind[:3] for st_ in traces[j].steps])
+            for x in sess:
+                H._close(x.cache)
+        finally:
+            os.chdir(cwd0)
+    classes += ['pair_load'] if flags_all['load'] else []
+    nt = None
+    if flags_all['load']:
+        km = case.get('keymap')
+        nt = ('pair', case['module'], case['algo'], km and (km['cls'], km['flat'], km['typed']), case['backend'], evs[0])
+    return out[:1], nt, sorted(set(classes))
+
+
 def run_case(case):
+    if case.get('pair'):
+        return run_pair(case)
     tr = H.run_history(case)
     discrs, ev, flags = check_trace(case, tr)
     classes = base_classes(case) + [k for k, v in flags.items() if v] + (['lookalike_pair'] if case.get('lookalike_pair') else [])
@@ -109,6 +182,6 @@ def run_case(case):
     return discrs, nt, sorted(set(classes))
 
 
-REQUIRED_CLASSES = ['lookalike_pair', 'load', 'hit_after_eviction', 'second_spelling_hit', 'module:safe', 'eff_algo:no', 'eff_algo:inf', 'eff_algo:mru',
+REQUIRED_CLASSES = ['two_functions', 'pair_load', 'lookalike_pair', 'load', 'hit_after_eviction', 'second_spelling_hit', 'module:safe', 'eff_algo:no', 'eff_algo:inf', 'eff_algo:mru',
                     'eff_algo:lfu', 'eff_algo:rr', 'keymap:default']
 TRIGGERS = {}
